@@ -403,6 +403,29 @@ func c16Lockset(p *Prog, r *Report) {
 								continue
 							}
 							usite := fmt.Sprintf("%s:%s.%s:use-of-loaded-reference", fnKey(fn), g.stype, g.field)
+							// … and inside the *same* critical section: once the lock was released, the field
+							// may hold another map (SetMap), and the reference read before is a stale one
+							stale := false
+							forEachInstr(fn, func(_ *ssa.BasicBlock, _ int, u ssa.Instruction) {
+								if _, isDefer := u.(*ssa.Defer); isDefer {
+									return
+								}
+								uc := callOf(u)
+								if uc == nil {
+									return
+								}
+								k, op, isM := mutexOf(uc)
+								if !isM || k != want || (op != "Unlock" && op != "RUnlock") {
+									return
+								}
+								if findPath(pointOf(ld), instrIs(u), instrIs(use), nil) != nil && findPath(pointOf(u), instrIs(use), instrIs(ld), nil) != nil {
+									stale = true
+								}
+							})
+							if stale {
+								r.Fail("D1-lockset", usite+":same-section", p.Pos(use.Pos()), fmt.Sprintf("the reference read from %s.%s is still used after %s was released and taken again: the field may have been replaced in between (SetMap), so the result is stored into a map nobody reads any more and the next lookup fetches again", g.stype, g.field, g.mutex))
+								continue
+							}
 							if held[use][want] {
 								r.OK("D1-lockset", usite, p.Pos(use.Pos()), "the shared "+g.field+" is used only inside the critical section")
 							} else {
